@@ -19,7 +19,10 @@ SVC_POOL = ["alpha.ex", "Beta.ex", "gamma.ex", "delta.ex", "eps.ex", "zeta.ex",
             # names that are a prefix of / share the first character with / look like a glob for another one
             "alpha.ex.org", "galpha.ex", "gamm?.ex"]
 IPS = ["127.0.0.1", "10.1.2.3", "192.168.0.77", "1.2.3.4", "2001:db8::1", "fe80::1:2", "0::ffff:9.8.7.6",
-       "1:2:3:4:5:6:7:8", "0::1", "255.255.255.255", "2001:0:0:1::2"]
+       "1:2:3:4:5:6:7:8", "0::1", "255.255.255.255", "2001:0:0:1::2",
+       # the server's own notation where it is a matter of rule: two runs of zero groups of equal length (the first one
+       # is abbreviated), a single zero group, a run at the end
+       "2001:db8::1:0:0:1", "1::2:0:0:3:4", "2001:db8::5:6:0:7:8", "1:2:3::5:6:7:8", "1:2:3:4:5:6:7::", "fe80::1:0:0:0:2"]
 
 
 # ---------------------------------------------------------------------------
@@ -103,6 +106,9 @@ def reply_s(draw, kinds):
     if k == "NOL":
         # a refusal whose text does not fit any output buffer (the verdict is still due, however it is cut)
         return "NO " + draw(st.sampled_from(["x", "go away ", "A:"])) * draw(st.sampled_from([340, 520, 1100]))
+    if k == "MOREL":
+        # a challenge that does not fit the daemon's output line (it is relayed cut short, as one line)
+        return draw(st.sampled_from(["MORE ", "AGAIN "])) + draw(st.sampled_from(["y", "say friend ", "B:"])) * draw(st.sampled_from([340, 520, 1100]))
     if k == "AGAIN":
         return "AGAIN " + draw(text_s)
     if k == "MORE":
@@ -130,11 +136,11 @@ PROFILES = {
     "C09": dict(BASE, X=10),
 }
 REPLY_KINDS = {
-    "default": ["OK", "OK", "OKA", "OKA", "NO", "AGAIN", "MORE", "OKE", "BAD"],
-    "C02": ["OK", "OK", "OKA", "OKA", "OKA", "OKE", "OKE", "AGAIN", "MORE", "NO", "BAD"],
-    "C03": ["OK", "OK", "OKA", "OKA", "OKA", "OKA", "AGAIN", "MORE", "OKE", "BAD"],
-    "C05": ["OK", "OKA", "OKA", "OKA", "NO", "NO", "AGAIN", "AGAIN", "MORE", "MORE", "OKE"],
-    "C10": ["OK", "OK", "OKA", "OKA", "NO", "AGAIN", "MORE", "OKE", "BAD", "NOL"],
+    "default": ["OK", "OK", "OKA", "OKA", "NO", "AGAIN", "MORE", "OKE", "BAD"] * 2 + ["NOL", "MOREL"],
+    "C02": ["OK", "OK", "OKA", "OKA", "OKA", "OKE", "OKE", "AGAIN", "MORE", "NO", "BAD"] * 2 + ["NOL", "MOREL"],
+    "C03": ["OK", "OK", "OKA", "OKA", "OKA", "OKA", "AGAIN", "MORE", "OKE", "BAD"] * 2 + ["MOREL"],
+    "C05": ["OK", "OKA", "OKA", "OKA", "NO", "NO", "AGAIN", "AGAIN", "MORE", "MORE", "OKE"] * 2 + ["NOL", "MOREL"],
+    "C10": ["OK", "OK", "OKA", "OKA", "NO", "AGAIN", "MORE", "OKE", "BAD", "NOL", "MOREL"],
 }
 
 
@@ -337,16 +343,25 @@ def slot_reuse_scenario(draw, conf):
             ev += [["X", lv, S[0], "NO go away", "cur"], ["D", lv]]
         else:
             ev += [[how_, lv]]
+    waiter = None
+    if draw(st.integers(0, 2)) == 0:
+        # ... or somebody else still waits for the service when the reload drops it: its record outlives the reload
+        # and goes later, outside any reload, when that client is answered (or leaves)
+        waiter = cid + 2
+        ev += [["C", waiter, "10.9.9.7", 1113], ["N", waiter, "w.example.org"], ["u", waiter, "wait"], ["n", waiter, "Waiter"], ["U", waiter, "wait", "waiting client"],
+               ["P", waiter, "+x third pw"]]
     ev.append(["X", cid, S[0], draw(st.sampled_from(["OK", "MORE say friend", "MORE say friend", "AGAIN once more", "MORE "])), "cur"])
     free = [x for x in SVC_POOL if x not in [y[0] for y in conf["services"]]]
     T = [draw(st.sampled_from(free + [S[0]])), draw(st.sampled_from(["login", "login", "combined", "login-ipr", "dronecheck"]))]
     rest = [list(s_) for s_ in conf["services"] if s_[0] != S[0]]
-    if draw(st.booleans()):
+    if waiter is None and draw(st.booleans()):
         ev.append(["reconf", {"services": rest + [T]}])
     else:
         ev.append(["reconf", {"services": rest}])
         if draw(st.booleans()):
             ev.append(["n", cid, "Nick1"])
+        if waiter is not None:
+            ev.append(draw(st.sampled_from([["X", waiter, S[0], "OK", "cur"], ["X", waiter, S[0], "AGAIN no", "cur"], ["D", waiter], ["x", waiter, S[0], "cur"]])))
         ev.append(["reconf", {"services": rest + [T]}])
     tail = [["u", cid, "ident2"], ["n", cid, "Nick2"], ["P", cid, "+x! acct pw2"], ["P", cid, "mellon"], ["d", cid]]
     ev += [t_ for t_ in draw(st.permutations(tail)) if draw(st.integers(0, 3))]
@@ -707,8 +722,9 @@ def timer_s(draw, pid, tier):
     """Real one-second timers: instances in various stages, a sleep past the expiry,
     then late traffic.  (Only real timers can show a timer outliving its request.)"""
     names = draw(st.permutations(SVC_POOL))[:draw(st.integers(0, 3))]
+    tsec = draw(st.sampled_from([1, 1, 1, 2]))
     conf = {"modules": ["iauth_class", "iauth_xquery"], "services": [[n, draw(st.sampled_from(proto.PROTOCOLS))] for n in names],
-            "timeout": 1, "rules": [], "logs": [["*.>=info", "file:iauthd.log"]]}
+            "timeout": tsec, "rules": [], "logs": [["*.>=info", "file:iauthd.log"]]}
     kinds = expand(PROFILES.get(pid, PROFILES["C10"]))
     kinds = [k for k in kinds if k != "!"]
     rk = REPLY_KINDS["default"]
@@ -734,6 +750,9 @@ def timer_s(draw, pid, tier):
                 sc.append(draw(event_s(cid, conf, kinds, rk, (7, 2))))
             if mode == "complete":
                 sc.extend(completion(draw, cid, conf, sc, rk, (7, 2)))
+        if mode == "pending" and draw(st.integers(0, 2)) == 0:
+            # the server hurries the client up and then withdraws it (or sees it registered) well before its time is up
+            sc += [["H", cid], [draw(st.sampled_from(["D", "T"])), cid]]
         ev.extend(sc)
     if k0 == 1:
         # ... or switches the timeout off while requests announced under it are pending: their timers still run
@@ -741,17 +760,17 @@ def timer_s(draw, pid, tier):
     if draw(st.booleans()):
         # nothing is sent during or right after the wait (no barrier): the next thing the server says is that it
         # withdraws or has registered some of the clients whose timers have just expired
-        ev.append(["sleep", 1.6, "quiet"])
+        ev.append(["sleep", tsec + 0.6, "quiet"])
         for cid in draw(st.permutations(sorted(set(ids)))):
             ev.append([draw(st.sampled_from(["D", "T", "D", "H", "n"])), cid] if True else None)
             if ev[-1][0] == "n":
                 ev[-1].append("Late")
     else:
-        ev.append(["sleep", 1.35])
+        ev.append(["sleep", tsec + 0.35])
     for _ in range(draw(st.integers(0, 6))):
         ev.append(draw(event_s(draw(st.sampled_from(ids)), conf, kinds, rk, (7, 2))))
     if draw(st.booleans()):
-        ev.append(["sleep", 1.35])
+        ev.append(["sleep", tsec + 0.35])
     return {"conf": conf, "events": ev}
 
 
@@ -762,6 +781,10 @@ def c10_s(draw, pid, tier):
         return draw(timer_s(pid, tier))
     if k == 3:
         return {"conf": draw(conf_s(pid, tier)), "events": crowd_events(draw)}
+    if k in (4, 5):
+        # class rules that ask for a service's OK, evaluated after reloads have dropped / replaced that service
+        import eng_proto2
+        return draw(eng_proto2.c11_successor_s())
     base = draw(history_s(pid, tier))
     if k in (1, 2):
         # a long history: the generated block repeated R times on shifting (and recurring) ids,
